@@ -4,7 +4,7 @@ import Driver.Util
 /-!
 Driver glue for the `load` domain.
 
-    load.tree <probe 0/1> <root> <nfiles> file*
+    load.tree <probe stride, 0 = none> <root> <nfiles> file*
       file    := <id> <version> <dotenv 0/1> <dir> <vars> <vars(env)> <ninc> include* <ntask> task*
       dir     := <n> <seg>*
       vars    := <n> (<key> <val>)*
@@ -16,7 +16,8 @@ answers `err <class> <code>` or
 
     ok <n> taskdump* V <varsdump> E <varsdump>
       taskdump := T <hexname> C <ncmd> (<hextask|-> <sh>)* D <names> A <names> <internal> <dirdump> N <hexns> L <loc>
-                  AT <nattr> <attr>* TV <varsdump> IV <varsdump> XV <varsdump> [P <dirdump> <nseen> (<key> <val|->)*]
+                  AT <nattr> <attr>* TV <varsdump> IV <varsdump> XV <varsdump>
+    followed, when a probe was asked for, by  PR <m> (<idx> <dirdump> <nseen> (<key> <val|->)*)*
       dirdump  := a|r <n> <seg>*
       varsdump := <n> (<key> <val> <dirdump>)*
 -/
@@ -80,15 +81,20 @@ def seen (tf : Taskfile) (t : Task) (k : Nat) : Option Nat :=
   let layers := [tf.env, tf.vars, t.incVars, t.incTfVars, t.vars]
   layers.foldl (fun acc l => match Vars.get k l with | some v => some v.val | none => acc) none
 
-def showTask (probe : Bool) (tf : Taskfile) (keys : List Nat) (t : Task) : List String :=
+def showTask (t : Task) : List String :=
   ["T", hexName t.name, "C", toString t.cmds.length] ++ t.cmds.flatMap (fun c => [hexName c.task, toString c.sh])
   ++ ["D"] ++ showNames t.deps ++ ["A"] ++ showNames t.aliases ++ [showBool t.internal] ++ showDir t.dir
   ++ ["N", hexName t.ns, "L", toString t.loc, "AT"] ++ showNats t.attrs
   ++ ["TV"] ++ showVars t.vars ++ ["IV"] ++ showVars t.incVars ++ ["XV"] ++ showVars t.incTfVars
-  ++ (if probe then
-        ["P"] ++ showDir ⟨true, if t.dir.abs then t.dir.segs else tf.fdir ++ t.dir.segs⟩ ++ [toString keys.length]
-          ++ keys.flatMap (fun k => [toString k, match seen tf t k with | some v => toString v | none => "-"])
-      else [])
+
+/-- the probe of the `idx`-th merged task: compiled working directory and variables seen -/
+def showProbe (tf : Taskfile) (keys : List Nat) (idx : Nat) (t : Task) : List String :=
+  [toString idx] ++ showDir ⟨true, if t.dir.abs then t.dir.segs else tf.fdir ++ t.dir.segs⟩ ++ [toString keys.length]
+    ++ keys.flatMap (fun k => [toString k, match seen tf t k with | some v => toString v | none => "-"])
+
+def probes (stride : Nat) (tf : Taskfile) (keys : List Nat) : Nat → List Task → List (List String)
+  | _, [] => []
+  | i, t :: r => (if i % stride = 0 then [showProbe tf keys i t] else []) ++ probes stride tf keys (i + 1) r
 
 def errCode (e : Err) : Nat :=
   let look (n : String) : Nat := ((TaskModel.Gen.Codes.errorCodes.find? (·.1 == n)).map (·.2)).getD 1
@@ -110,14 +116,16 @@ def allKeys (fm : FileMap) : List Nat :=
 
 def doTree (args : List String) : Option String := do
   let ((probe, root, fm), rest) ← (do
-    let probe ← bool; let root ← nat; let fm ← many file; pure (probe, root, fm) : P _) args
+    let probe ← nat; let root ← nat; let fm ← many file; pure (probe, root, fm) : P _) args
   if !rest.isEmpty then none
   match load fm root with
   | .error e => some s!"err {errName e} {errCode e}"
   | .ok tf =>
     let keys := allKeys fm
-    some (" ".intercalate (["ok", toString tf.tasks.length] ++ tf.tasks.flatMap (showTask probe tf keys)
-      ++ ["V"] ++ showVars tf.vars ++ ["E"] ++ showVars tf.env))
+    let ps := if probe = 0 then [] else probes probe tf keys 0 tf.tasks
+    some (" ".intercalate (["ok", toString tf.tasks.length] ++ tf.tasks.flatMap showTask
+      ++ ["V"] ++ showVars tf.vars ++ ["E"] ++ showVars tf.env
+      ++ (if probe = 0 then [] else ["PR", toString ps.length] ++ ps.flatMap id)))
 
 /-- `load.refs <root> <nfiles> file*` → `ok <n> (T <key> L <loc> R <names>)*` : the targets
 property C08 demands for every reference of every merged task -/
